@@ -197,7 +197,7 @@ proof {
 
 @fn src/filedb/inner/dbxxx.rs | impl<KT: DbMapKeyType> DbXxxObjectSafe<KT> for FileDbXxxInner<KT> | get_kt
 @opts mapres
-@serves C01 C15
+@serves C01 C09 C15
 @requires
 old(self).inv()
 @ensures
@@ -353,7 +353,7 @@ proof {
 
 @fn src/filedb/inner/dbxxx.rs | impl<KT: DbMapKeyType> DbXxxObjectSafe<KT> for FileDbXxxInner<KT> | put_kt
 @opts rlimit=200
-@serves C01 C03 C05 C08
+@serves C01 C03 C05 C06 C08 C09 C18
 @requires
 old(self).inv(), small(old(self).mb()), key_kt.bytes().len() <= 0x1_0000, value@.len() <= 0x100_0000,
 forall|w: MapW, o: nat| #[trigger] map_ok(old(self).mb(), w) && #[trigger] is_key(w.kw, o) ==> kkey(w.kw, o).len() <= 0x1_0000
@@ -446,7 +446,7 @@ proof {
 
 @fn src/filedb/inner/dbxxx.rs | impl<KT: DbMapKeyType> DbXxxObjectSafe<KT> for FileDbXxxInner<KT> | del_kt
 @opts rlimit=300
-@serves C01 C03 C05 C06 C08
+@serves C01 C03 C05 C06 C08 C18
 @requires
 old(self).inv(), small(old(self).mb()), key_kt.bytes().len() <= 0x1_0000,
 forall|w: MapW, o: nat| #[trigger] map_ok(old(self).mb(), w) && #[trigger] is_key(w.kw, o) ==> kkey(w.kw, o).len() <= 0x1_0000
@@ -528,6 +528,197 @@ proof {
             assert forall|w: MapW| #[trigger] map_ok(m, w) implies !has_key(w, key) by {
                 assert(find_post(m, w, key, gopt));
             }
+        }
+    }
+}
+@end
+
+@type src/filedb/inner/dbxxx.rs | DbXxxIterMut
+
+@raw root
+verus! {
+/// two entries with the same position in iteration order are the same entry (each live entry is visited exactly once)
+pub proof fn lemma_entry_unique(cs: Seq<Seq<nat>>, b1: int, i1: int, b2: int, i2: int)
+    requires 0 <= b1 < cs.len(), 0 <= b2 < cs.len(), 0 <= i1 < cs[b1].len(), 0 <= i2 < cs[b2].len(),
+        upto(cs, b1) + i1 == upto(cs, b2) + i2
+    ensures b1 == b2 && i1 == i2
+{
+    if b1 < b2 { lemma_upto_mono(cs, b1 + 1, b2); } else if b2 < b1 { lemma_upto_mono(cs, b2 + 1, b1); }
+}
+} // verus!
+@end
+
+@fn src/filedb/inner/dbxxx.rs | impl<KT: DbMapKeyType> FileDbXxxInner<KT> | load_key_data
+@opts mutself
+@requires
+piece_offset.val != 0, exists|w: MapW| #[trigger] map_ok(old(self).mb(), w) && is_key(w.kw, piece_offset.val as nat)
+@ensures
+final(self).same_files(old(self)),
+old(self).healthy() ==> r is Ok,
+r is Ok ==> forall|w: MapW| #[trigger] map_ok(old(self).mb(), w) && is_key(w.kw, piece_offset.val as nat) ==> r->Ok_0.bytes() == kkey(w.kw, piece_offset.val as nat)
+@entry
+let ghost m = old(self).mb();
+let ghost ko = piece_offset.val as nat;
+let ghost w0: MapW = choose|w: MapW| #[trigger] map_ok(m, w) && is_key(w.kw, ko);
+proof { assert(key_at(m.kb, m.kpm, w0.kw, ko)); }
+@exit
+proof {
+    if r__ is Ok {
+        assert forall|w: MapW| #[trigger] map_ok(m, w) && is_key(w.kw, ko) implies r__->Ok_0.bytes() == kkey(w.kw, ko) by {
+            assert(key_at(m.kb, m.kpm, w.kw, ko));
+        }
+    }
+}
+@end
+
+@fn src/filedb/inner/dbxxx.rs | impl<KT: DbMapKeyType> DbXxxIterMut<KT> | new
+@opts mutparam=db_map
+@serves C04
+@requires
+db_map.inv()
+@ensures
+db_map.healthy() ==> r is Ok,
+r is Ok ==> r->Ok_0.db_map.same_files(&db_map) && r->Ok_0.buckets_size == db_map.htx_file.0.buckets_size && r->Ok_0.buckets_idx == 0 && r->Ok_0.key_offset.val == 0,
+r is Ok ==> forall|w: MapW| #[trigger] map_ok(db_map.mb(), w) ==> iter_inv(w, db_map.mb().n, 0, 0, r->Ok_0.remaining_item_count as nat, 0)
+@end
+
+@fn src/filedb/inner/dbxxx.rs | impl<KT: DbMapKeyType> DbXxxIterMut<KT> | next_piece_offset
+@opts rlimit=300
+@serves C04 C15
+@requires
+old(self).db_map.inv(), old(self).db_map.healthy(), old(self).buckets_size == old(self).db_map.htx_file.0.buckets_size,
+exists|w: MapW, k: nat| #[trigger] map_ok(old(self).db_map.mb(), w) && #[trigger] iter_inv(w, old(self).db_map.mb().n, old(self).key_offset.val as nat, old(self).buckets_idx as int, old(self).remaining_item_count as nat, k)
+@ensures
+final(self).db_map.same_files(&old(self).db_map), final(self).buckets_size == old(self).buckets_size,
+forall|w: MapW, k: nat| #[trigger] map_ok(old(self).db_map.mb(), w) && #[trigger] iter_inv(w, old(self).db_map.mb().n, old(self).key_offset.val as nat, old(self).buckets_idx as int, old(self).remaining_item_count as nat, k) ==> ({
+    &&& k < total(w.cs) ==> r == Some(final(self).key_offset) && final(self).key_offset.val != 0 && iter_inv(w, old(self).db_map.mb().n, final(self).key_offset.val as nat, final(self).buckets_idx as int, final(self).remaining_item_count as nat, k + 1)
+    &&& k == total(w.cs) ==> r is None && iter_inv(w, old(self).db_map.mb().n, final(self).key_offset.val as nat, final(self).buckets_idx as int, final(self).remaining_item_count as nat, k)
+})
+@entry
+let ghost m = old(self).db_map.mb();
+let ghost n = m.n;
+let ghost ko0 = old(self).key_offset.val as nat;
+let ghost bidx0 = old(self).buckets_idx as int;
+let ghost rem0 = old(self).remaining_item_count as nat;
+let ghost wk: (MapW, nat) = choose|w: MapW, k: nat| #[trigger] map_ok(m, w) && #[trigger] iter_inv(w, n, ko0, bidx0, rem0, k);
+let ghost w0 = wk.0;
+let ghost mut ko1: nat = ko0;
+proof {
+    if ko0 != 0 {
+        let i = choose|i: int| 0 <= i < w0.cs[bidx0 - 1].len() && #[trigger] w0.cs[bidx0 - 1][i] == ko0 && wk.1 == upto(w0.cs, bidx0 - 1) + i + 1;
+        assert(chain_ok(w0.kw, bucket(m.hb, bidx0 - 1), w0.cs[bidx0 - 1], bidx0 - 1, n));
+        lemma_chain_member(w0.kw, bucket(m.hb, bidx0 - 1), w0.cs[bidx0 - 1], bidx0 - 1, n, i);
+        assert(key_at(m.kb, m.kpm, w0.kw, ko0));
+    }
+}
+@after-call read_piece_only_bucket_next_offset 1
+proof { ko1 = self.key_offset.val as nat; }
+@loop 1 invariant
+self.db_map == *final(db_map_inner), db_map_inner.htx_file.0 == *final(htx_inner),
+buckets_size == n, bidx0 <= buckets_idx <= n,
+htx_inner.buckets_size == n, htx_wf(htx_inner.file@.bytes, n), htx_inner.file@.bytes == m.hb,
+same_but_pos(old(self).db_map.hf(), htx_inner.file@), okh2(old(self).db_map.hf(), htx_inner.file@), htx_inner.file.piece_mgr == old(self).db_map.htx_file.0.file.piece_mgr,
+key_offset.val == 0 ==> all_empty(m.hb, bidx0, buckets_idx as int),
+key_offset.val != 0 ==> buckets_idx > bidx0 && all_empty(m.hb, bidx0, buckets_idx - 1) && key_offset.val as nat == bucket(m.hb, buckets_idx - 1)
+@loop 1 decreases
+n - buckets_idx
+@exit
+proof {
+    let ko2 = self.key_offset.val as nat; let bidx2 = self.buckets_idx as int; let rem2 = self.remaining_item_count as nat;
+    assert forall|w: MapW, k: nat| #[trigger] map_ok(m, w) && #[trigger] iter_inv(w, n, ko0, bidx0, rem0, k) implies ({
+        &&& k < total(w.cs) ==> r__ == Some(self.key_offset) && ko2 != 0 && iter_inv(w, n, ko2, bidx2, rem2, k + 1)
+        &&& k == total(w.cs) ==> r__ is None && iter_inv(w, n, ko2, bidx2, rem2, k)
+    }) by {
+        lemma_upto_total(w.cs);
+        if ko0 != 0 {
+            let b = bidx0 - 1;
+            let i = choose|i: int| 0 <= i < w.cs[b].len() && #[trigger] w.cs[b][i] == ko0 && k == upto(w.cs, b) + i + 1;
+            assert(chain_ok(w.kw, bucket(m.hb, b), w.cs[b], b, n));
+            lemma_chain_member(w.kw, bucket(m.hb, b), w.cs[b], b, n, i);
+            assert(key_at(m.kb, m.kpm, w.kw, ko0));
+            lemma_upto_mono(w.cs, b + 1, n);
+            assert(upto(w.cs, b + 1) == upto(w.cs, b) + w.cs[b].len());
+            if ko1 != 0 {
+                assert(w.cs[b][i + 1] == ko1);
+                assert(ko2 == ko1 && bidx2 == bidx0);
+                assert(0 <= i + 1 < w.cs[bidx2 - 1].len() && w.cs[bidx2 - 1][i + 1] == ko2 && (k + 1) as nat == upto(w.cs, bidx2 - 1) + (i + 1) + 1);
+            } else {
+                if i + 1 < w.cs[b].len() { lemma_chain_member(w.kw, bucket(m.hb, b), w.cs[b], b, n, i + 1); }
+                assert(i == w.cs[b].len() - 1);
+                assert(k == upto(w.cs, bidx0));
+                lemma_iter_scan(m, w, bidx0, bidx2, ko2);
+                if ko2 != 0 {
+                    assert(0 <= 0 < w.cs[bidx2 - 1].len() && w.cs[bidx2 - 1][0] == ko2 && (k + 1) as nat == upto(w.cs, bidx2 - 1) + 0 + 1);
+                    assert(upto(w.cs, bidx2) == upto(w.cs, bidx2 - 1) + w.cs[bidx2 - 1].len());
+                }
+            }
+        } else {
+            if bidx0 == 0 { assert(upto(w.cs, 0) == 0); }
+            assert(k == upto(w.cs, bidx0));
+            lemma_iter_scan(m, w, bidx0, bidx2, ko2);
+            if ko2 != 0 {
+                assert(0 <= 0 < w.cs[bidx2 - 1].len() && w.cs[bidx2 - 1][0] == ko2 && (k + 1) as nat == upto(w.cs, bidx2 - 1) + 0 + 1);
+                assert(upto(w.cs, bidx2) == upto(w.cs, bidx2 - 1) + w.cs[bidx2 - 1].len());
+            }
+        }
+    }
+}
+@end
+
+@fn src/filedb/inner/dbxxx.rs | impl<KT: DbMapKeyType> Iterator for DbXxxIterMut<KT> | size_hint
+@serves C04
+@ensures
+r.0 == self.remaining_item_count as usize, r.1 == Some(self.remaining_item_count as usize)
+@end
+
+@raw root
+verus! {
+/// what one step of an iterator over a map yields, per witness and position
+pub open spec fn iter_next_post<KT: DbMapKeyType>(w: MapW, n: int, k: nat, r: Option<(KT, Vec<u8>)>, ko2: nat, bidx2: int, rem2: nat) -> bool {
+    &&& k < total(w.cs) ==> r is Some && is_key(w.kw, ko2) && r->Some_0.0.bytes() == kkey(w.kw, ko2) && r->Some_0.1@ == vval(w.vw, kvoff(w.kw, ko2)) && iter_inv(w, n, ko2, bidx2, rem2, k + 1)
+    &&& k == total(w.cs) ==> r is None && iter_inv(w, n, ko2, bidx2, rem2, k)
+}
+} // verus!
+@end
+
+@fn src/filedb/inner/dbxxx.rs | impl<KT: DbMapKeyType> Iterator for DbXxxIterMut<KT> | next
+@serves C04 C15
+@requires
+old(self).db_map.inv(), old(self).db_map.healthy(), old(self).buckets_size == old(self).db_map.htx_file.0.buckets_size,
+exists|w: MapW, k: nat| #[trigger] map_ok(old(self).db_map.mb(), w) && #[trigger] iter_inv(w, old(self).db_map.mb().n, old(self).key_offset.val as nat, old(self).buckets_idx as int, old(self).remaining_item_count as nat, k)
+@ensures
+final(self).db_map.same_files(&old(self).db_map), final(self).buckets_size == old(self).buckets_size,
+forall|w: MapW, k: nat| #[trigger] map_ok(old(self).db_map.mb(), w) && #[trigger] iter_inv(w, old(self).db_map.mb().n, old(self).key_offset.val as nat, old(self).buckets_idx as int, old(self).remaining_item_count as nat, k) ==>
+    iter_next_post(w, old(self).db_map.mb().n, k, r, final(self).key_offset.val as nat, final(self).buckets_idx as int, final(self).remaining_item_count as nat)
+@entry
+let ghost m = old(self).db_map.mb();
+let ghost n = m.n;
+let ghost ko0 = old(self).key_offset.val as nat;
+let ghost bidx0 = old(self).buckets_idx as int;
+let ghost rem0 = old(self).remaining_item_count as nat;
+let ghost wk: (MapW, nat) = choose|w: MapW, k: nat| #[trigger] map_ok(m, w) && #[trigger] iter_inv(w, n, ko0, bidx0, rem0, k);
+let ghost w0 = wk.0;
+@after-call next_piece_offset 1
+proof {
+    if wk.1 < total(w0.cs) {
+        let ko2 = self.key_offset.val as nat;
+        let i = choose|i: int| 0 <= i < w0.cs[self.buckets_idx as int - 1].len() && #[trigger] w0.cs[self.buckets_idx as int - 1][i] == ko2 && (wk.1 + 1) as nat == upto(w0.cs, self.buckets_idx as int - 1) + i + 1;
+        assert(chain_ok(w0.kw, bucket(m.hb, self.buckets_idx as int - 1), w0.cs[self.buckets_idx as int - 1], self.buckets_idx as int - 1, n));
+        lemma_chain_member(w0.kw, bucket(m.hb, self.buckets_idx as int - 1), w0.cs[self.buckets_idx as int - 1], self.buckets_idx as int - 1, n, i);
+        assert(map_ok(self.db_map.mb(), w0) && is_key(w0.kw, ko2));
+    }
+}
+@before-call load_value 1
+proof { assert(map_ok(db_map_inner.mb(), w0) && is_key(w0.kw, self.key_offset.val as nat)); }
+@exit
+proof {
+    let ko2 = self.key_offset.val as nat; let bidx2 = self.buckets_idx as int; let rem2 = self.remaining_item_count as nat;
+    assert forall|w: MapW, k: nat| #[trigger] map_ok(m, w) && #[trigger] iter_inv(w, n, ko0, bidx0, rem0, k) implies iter_next_post(w, n, k, r__, ko2, bidx2, rem2) by {
+        if k < total(w.cs) {
+            let i = choose|i: int| 0 <= i < w.cs[bidx2 - 1].len() && #[trigger] w.cs[bidx2 - 1][i] == ko2 && (k + 1) as nat == upto(w.cs, bidx2 - 1) + i + 1;
+            assert(chain_ok(w.kw, bucket(m.hb, bidx2 - 1), w.cs[bidx2 - 1], bidx2 - 1, n));
+            lemma_chain_member(w.kw, bucket(m.hb, bidx2 - 1), w.cs[bidx2 - 1], bidx2 - 1, n, i);
+            assert(map_ok(m, w) && is_key(w.kw, ko2));
         }
     }
 }
